@@ -29,6 +29,7 @@ CFG = {
         "Leptos.Stream.C07_api_misuse_witness",
         "Leptos.Stream.C07_late_read_witness",
         "Leptos.Stream.C07_late_read_loaded_witness",
+        "Leptos.Stream.C07_suspend_nonce_witness",
         # the lemmas the theorems rest on
         "Leptos.Stream.pollStep_inOrd",
         "Leptos.Stream.pollStep_mu",
@@ -66,11 +67,13 @@ CFG = {
             "against the real StreamBuilder through its public API, futures = oneshot receivers, the real Stream polled by hand "
             "with a no-op waker; (B) view level: view trees as data (elements, text, tuples, Vec, Suspend::new(async{rx.await; view}), "
             "<Suspense>/<Transition> with fallback, <Await>, <ErrorBoundary>, server resources under a boundary: OnceResource / "
-            "Resource / AsyncDerived read synchronously (`move || res.get().map(..)`) or awaited in a Suspend, LocalResource "
+            "Resource / AsyncDerived read synchronously (`move || res.get().map(..)`, also in the output of a Suspend / of another read) or awaited in a Suspend, LocalResource "
             "read synchronously or awaited (first thing, or after another future: free mode only) by a boundary's children "
-            "=> the fallback stays and the stream ends; nesting <= 3, <= 6 futures, some futures completed before rendering) built with the real leptos components under an Owner with an SsrSharedContext and rendered with "
+            "=> the fallback stays and the stream ends; tachys Island / IslandChildren; <Await blocking>, <Transition set_pending>; "
+            "nesting <= 3, <= 6 futures, some futures completed before rendering; modes io/ooo + b (the _branching streams) + n (leptos "
+            "`nonce` feature, provide_nonce())) built with the real leptos components under an Owner with an SsrSharedContext and rendered with "
             "to_html_stream_in_order()/to_html_stream_out_of_order(); executor = hx_common::sched (run ops choose the task order, "
-            "the executor is drained before every stream poll). Exhaustive small scope: 6 view shapes and 3 builder shapes with "
+            "the executor is drained before every stream poll). Exhaustive small scope: 9 view shapes (three of them also in the branching / nonce modes) and 3 builder shapes with "
             "2-4 futures x both modes x ALL completion permutations x ALL poll interleavings with 0..2 polls between completions "
             "(0..1 for 4 futures; 0..3 / 0..2 in the thorough tier); then seeded random views / view-shaped programs / arbitrary "
             "API programs (chunk comparison only) with random grouped schedules. Observable: every poll's result (exact chunk "
@@ -95,15 +98,31 @@ CFG = {
                  "RenderHtml::to_html_stream_in_order/out_of_order"],
     "assumptions": [
         "pushed strings are ASCII and contain no marker/template/script syntax of their own (tachys escapes `<` in text)",
-        "server resources are only generated where they are created together with the future that waits for them (at render "
-        "time or with their boundary); a resource created inside the output of a Suspend needs one more executor turn, and a sync "
-        "resource read inside another read's output is not waited for by leptos at all (neither is generated)",
+        "server resources that are read synchronously are created before the view is built (as a component body does), one per "
+        "(kind, future); a resource created and awaited inside the output of a Suspend under a boundary needs one more executor "
+        "turn: same document, generated in free mode only (final document compared). A resource read synchronously for the first "
+        "time while its boundary resolves its children is not waited for (F-C07-6, known class sync-read-late; model: compileA / "
+        "noLate): all completion orders x poll interleavings for three shapes; in the random schedules such a resource completes "
+        "before everything else or after the stream has ended (in between, the code evaluates the read when the output that "
+        "contains it is first polled, the model when the boundary resolves)",
+        "branching streams (modes iob/ooob): branch marker comments are compared by position, a run of markers as one `<!--b-->` "
+        "(ids are `{:?}` of a TypeId / Either indices); the harness checks ids and nesting on the real text and compares the "
+        "document without markers with the resolved render. Observed, not failed by any oracle: which markers are emitted depends on "
+        "the mode (AnyView marks itself on the synchronous and the in-order path only; SuspenseBoundary's Either markers only "
+        "where the boundary renders in place) and, in-order, on whether a top-level Suspend was ready at first render (`0` of its Option)",
+        "a provided nonce (modes ...n) is shown as NONCE; F-C07-8 (top-level Suspend chunk without nonce) and F-C07-9 (nonce "
+        "written unescaped, builder API only) are known classes",
+        "<Await blocking=true> (every Await on an even future) and <Transition set_pending> (every Transition) leave the stream "
+        "unchanged; oracles at the end: no Transition still pending, every deferred future ready. integrations/utils from_app "
+        "(ready_chunks(32), await_deferred before the first chunk, meta injection, resource data scripts) is not driven; "
+        "HashedStylesheet / AutoReload / HydrationScripts are synchronous view! elements (leptos/src/hydration/mod.rs): no "
+        "stream behaviour of their own",
         "a LocalResource awaited after another future resolves its boundary at a poll that depends on futures::select!'s random "
         "order: compared on the final document only (free mode); in out-of-order mode that chunk has replace = false, which the "
         "OooWf theorems do not cover (oooViewOk)",
         "the executor is drained between stream polls on the view level (stream polls while tasks are still runnable are not explored)",
-        "u16 overflow of next_id (65535 boundaries in one builder) is not modelled; nonce feature, islands, mark_branches, extra_attrs, "
-        "LocalResource are outside the view grammar (replace = false is covered on the builder level)",
+        "u16 overflow of next_id (65535 boundaries in one builder) is not modelled; extra_attrs is outside the view grammar; "
+        "islands = tachys Island / IslandChildren wrappers (what #[island] expands to), not the macro",
         "F-C07-2..5 are repaired by hooks/fix-c07-{2,3,4,5}.patch (fix: commits in /repo); the model follows the repaired code, the "
         "old behaviour is kept as Builder.appendOld / inPlaceBufOld / compileOld with kernel-checked regression witnesses",
         "out-of-order theorems assume text hygiene (cleanOps: no marker/template/script syntax inside pushed strings, every `<` "
